@@ -7,8 +7,9 @@ Stream dl.hist   (model = coq/Run/DlRun.v over Dl/Blob.v; impl = harness vh_dl o
     equivalence) and prints it as "@flags" (a = holds, K/S = known class, X = broken).
 Oracle dl.oracle (implementation only, no model): the history against a plain HashMap, check_integrity,
     reload through MerkleBlob::new, independent root recomputation, proof validity.
-Stream dl.known  histories in the known finding classes (kept out of the default stream); reproduced
-    findings are reported as KNOWN-FINDING only for classes listed in KNOWN_FINDINGS.jsonl."""
+The former finding classes (batch with a duplicate, upsert with another leaf's hash, insert at a stale index;
+    repaired in /repo by a9e08b84, c5be66b8, 9e5ac516) are part of the default stream (kind "former-known"):
+    they must satisfy the property like every other history.  classify_known matches nothing."""
 import hashlib, json, os, sys
 sys.path.insert(0, os.path.dirname(os.path.dirname(os.path.abspath(__file__))))
 import common as C
@@ -122,7 +123,7 @@ def plain_apply(m, op, live_leaf=None):
 
 
 def known_class_of(m, op):
-    """the known finding classes that are decidable on the plain map"""
+    """the former finding classes that are decidable on the plain map (used to GENERATE such operations)"""
     if op[0] == "b" and plain_apply(m, op) is None:
         return "batch-duplicate"
     if op[0] == "u" and op[1] in m and hash_of_other(m, op[1], op[3]):
@@ -235,9 +236,7 @@ class Gen:
         return ("a",)
 
     def push(self, op):
-        """append if the operation is outside the classes decidable on the plain map"""
-        if known_class_of(self.m, op):
-            return False
+        """append the operation and track its effect on the plain map"""
         self.ops.append(op)
         n = plain_apply(self.m, op)
         if n is not None:
@@ -504,78 +503,11 @@ def leafclass(n):
     return "0" if n == 0 else "1" if n == 1 else "2" if n == 2 else "3-7" if n < 8 else "8+"
 
 
-def classify_failure_class(ops, fail_text, hist_impl_out):
-    """independent classification of a failing history: which known class (if any) is the first
-    operation the oracle complains about.  Returns a class string or None."""
-    import re
-    m = re.match(r"^FAIL op=(\d+) (.*)$", fail_text or "")
-    if not m:
-        return None
-    n = int(m.group(1))
-    what = m.group(2)
-    if n < 1 or n > len(ops):
-        return None
-    # replay the plain map up to the failing operation (all earlier operations passed the oracle,
-    # so the implementation agreed with the plain map there)
-    plain = {}
-    outs = hist_impl_out.split(" ") if hist_impl_out else []
-    for j in range(n - 1):
-        op = ops[j]
-        live = None
-        if op[0] == "i" and op[4][0] == "x":
-            prev = outs[j - 1].split("|")[1] if j >= 1 and j - 1 < len(outs) else "-"
-            if prev.startswith("#"):
-                return None
-            blob = bytes.fromhex(prev) if prev != "-" else b""
-            lv = reachable_leaves(blob)
-            live = (lambda i, lv=lv: lv is not None and i in lv)
-        nm = plain_apply(plain, op, live)
-        if nm is not None:
-            plain = nm
-    op = ops[n - 1]
-    kc = known_class_of(plain, op)
-    if kc == "batch-duplicate":
-        if what.startswith("result: plain map operation fails, implementation returned Ok"):
-            return "batch-duplicate/ok-corrupt"
-        if what.startswith("failed operation changed the blob"):
-            return "batch-duplicate/err-mutated"
-        return None
-    if kc == "upsert-hash-of-other-leaf":
-        if what.startswith("result: plain map operation fails, implementation returned Ok"):
-            return "upsert-hash-of-other-leaf"
-        return None
-    if op[0] == "i" and op[4][0] == "x" and what.startswith("result: plain map operation fails, implementation returned Ok"):
-        prev = outs[n - 2].split("|")[1] if n >= 2 and n - 2 < len(outs) else "-"
-        if prev.startswith("#"):
-            return None
-        blob = bytes.fromhex(prev) if prev != "-" else b""
-        lv = reachable_leaves(blob)
-        i = op[4][1]
-        if lv is not None and i not in lv and block_is_leaf(blob, i):
-            return "insert-at-stale-index"
-    return None
-
-
 _HIST_CACHE = {}
 
 
 def classify_known(failure, known):
-    """a failure is a known finding only if the first operation the oracle rejects is in the class
-    the entry names (match: {"class": ...}) — decided here independently of the Coq model"""
-    if not failure["stream"].startswith("dl.") or not failure["stream"].endswith("/oracle"):
-        return None
-    case = failure["case"]
-    toks = case.split(" ")[1:]
-    ops = [parse_tok(t) for t in toks if t]
-    hist = _HIST_CACHE.get(" ".join(toks))
-    if hist is None:
-        hist = C.run_lines(C.VH(UNIT), ["dl.hist " + " ".join(toks)])[0]
-    cls = classify_failure_class(ops, failure["impl"], hist)
-    if cls is None:
-        return None
-    for k in known:
-        if k.get("match", {}).get("class") == cls:
-            return k["id"]
+    """no known findings for C18 any more: every failure is a violation"""
     return None
 
 
@@ -608,6 +540,32 @@ def run(ctx):
             for i, kind in enumerate(mix):
                 hists.append((kind, gen_history(rng.fork("%s/%d/%d" % (kind, rep_i, i)), kind, tier)))
 
+        # the former finding classes, now ordinary histories: resolve the blind stale indexes on the implementation
+        kh = gen_known(rng.fork("known"), tier)
+        pre_lines = [line_of("dl.hist", ops[:-1]) for cls, ops in kh if cls.endswith("?")]
+        pre_out = C.run_lines(C.VH(UNIT), pre_lines, timeout=300) if pre_lines else []
+        pi = 0
+        for cls, ops in kh:
+            if not cls.endswith("?"):
+                hists.append(("former-known", ops))
+                continue
+            o = pre_out[pi]
+            pi += 1
+            outs = o.split(" ")
+            last = outs[-1].split("|") if outs and "|" in outs[-1] else None
+            if not last or last[1] in ("-",) or last[1].startswith("#"):
+                continue
+            blob = bytes.fromhex(last[1])
+            lv = reachable_leaves(blob)
+            if lv is None:
+                continue
+            stale = [i for i in range(len(blob) // BLOCK) if i not in lv and block_is_leaf(blob, i)]
+            if not stale:
+                continue
+            op = ops[-1]
+            idx = stale[rng.below(len(stale))]
+            hists.append(("former-known", ops[:-1] + [("i", op[1], op[2], op[3], ("x", idx, op[4][2])), ("h",)]))
+
     hl = [line_of("dl.hist", ops) for _, ops in hists]
     ol = [line_of("dl.oracle", ops) for _, ops in hists]
     impl = C.run_lines(C.VH(UNIT), hl, timeout=600)
@@ -623,7 +581,6 @@ def run(ctx):
 
     dist = {"kinds": {}, "ops": {}, "results": {}, "locations": {}, "history_lengths": {}, "max_leaves": 0,
             "blobs_by_sha": 0, "integrity_fail_states": 0}
-    moved_to_known = set()
 
     def key_fn_factory():
         return None
@@ -656,7 +613,7 @@ def run(ctx):
     if have_model:
         diff_stream(rep, "dl.hist", hl, impl, model)
         # the model-only abstraction link (L2 -> L1 validated by execution on every history)
-        link = {"ops_checked": 0, "holds": 0, "known_class_ops": 0, "broken": 0}
+        link = {"ops_checked": 0, "holds": 0, "broken": 0}
         for (kind, ops), l, (mo, flags) in zip(hists, hl, msplit):
             if flags is None:
                 continue
@@ -667,9 +624,6 @@ def run(ctx):
                 rep.add_failure("dl.hist/link", l, "-", "@" + flags,
                                 "model-internal: abs(blob') differs from the L1 operation applied to abs(blob), or inv_b / reload "
                                 "equivalence fails, at the first X (the L2->L1 link validated by execution does not hold)")
-            if "K" in flags or "S" in flags:
-                link["known_class_ops"] += 1
-                moved_to_known.add(l[len("dl.hist"):])
         rep.streams.setdefault("dl.hist", {})["abstraction_link"] = link
     else:
         rep.evaluations += len(hl)
@@ -680,81 +634,7 @@ def run(ctx):
     nfail = 0
     for (kind, ops), l, hline, o in zip(hists, ol, hl, oo):
         if o != "OK":
-            hist = _HIST_CACHE.get(hline[len("dl.hist "):] if " " in hline else "")
-            cls = classify_failure_class(ops, o, hist)
-            if cls == "insert-at-stale-index" and not ctx.get("replay"):
-                # raw-index inserts are generated blindly; the ones that hit a stale leaf block belong to the known stream
-                moved_to_known.add(l[len("dl.oracle"):])
-                continue
             nfail += 1
             rep.add_failure("dl.hist/oracle", l, o, "OK", "the property fails on the implementation: " + o)
-    rep.streams["dl.oracle"] = {"cases": len(ol), "failures": nfail, "moved_to_known_stream": len(moved_to_known)}
+    rep.streams["dl.oracle"] = {"cases": len(ol), "failures": nfail}
     rep.evaluations += len(ol)
-
-    if ctx.get("replay"):
-        return
-
-    # ---------------- known-class stream (kept apart; see notes/dl.md)
-    kh = gen_known(rng.fork("known"), tier)
-    # resolve the "?" raw indexes: run the prefix on the implementation and pick a stale leaf block
-    resolved = []
-    pre_lines = [line_of("dl.hist", ops[:-1]) for cls, ops in kh if cls.endswith("?")]
-    pre_out = C.run_lines(C.VH(UNIT), pre_lines, timeout=300) if pre_lines else []
-    pi = 0
-    for cls, ops in kh:
-        if not cls.endswith("?"):
-            resolved.append((cls, ops))
-            continue
-        o = pre_out[pi]
-        pi += 1
-        outs = o.split(" ")
-        last = outs[-1].split("|") if outs and "|" in outs[-1] else None
-        if not last or last[1] in ("-",) or last[1].startswith("#"):
-            continue
-        blob = bytes.fromhex(last[1])
-        lv = reachable_leaves(blob)
-        if lv is None:
-            continue
-        stale = [i for i in range(len(blob) // BLOCK) if i not in lv and block_is_leaf(blob, i)]
-        if not stale:
-            continue
-        op = ops[-1]
-        idx = stale[rng.below(len(stale))]
-        resolved.append(("insert-at-stale-index", ops[:-1] + [("i", op[1], op[2], op[3], ("x", idx, op[4][2]))]))
-    khl = [line_of("dl.hist", ops) for _, ops in resolved]
-    kol = [line_of("dl.oracle", ops) for _, ops in resolved]
-    kimpl = C.run_lines(C.VH(UNIT), khl, timeout=300)
-    for l, o in zip(khl, kimpl):
-        _HIST_CACHE[l[len("dl.hist "):]] = o
-    koo = C.run_lines(C.VH(UNIT), kol, timeout=300)
-    kstats = {"cases": len(resolved), "by_class": {}, "reproduced": {}, "not_reproduced": 0, "model_agrees": 0,
-              "model_flags_class": 0, "unlisted_reproduced_examples": {}}
-    if have_model:
-        kmraw = C.run_lines(C.VRUN(UNIT), khl, timeout=1200)
-        kms = [split_model(x) for x in kmraw]
-        diff_stream(rep, "dl.known", khl, kimpl, [a for a, _ in kms])
-        for (a, flags), i in zip(kms, kimpl):
-            if a == i:
-                kstats["model_agrees"] += 1
-            if flags and ("K" in flags or "S" in flags):
-                kstats["model_flags_class"] += 1
-    listed = {k.get("match", {}).get("class") for k in C.load_known() if k.get("property") == "C18" and k.get("status") == "known"}
-    for (cls, ops), l, o, hi in zip(resolved, kol, koo, kimpl):
-        kstats["by_class"][cls] = kstats["by_class"].get(cls, 0) + 1
-        if o == "OK":
-            kstats["not_reproduced"] += 1
-            continue
-        got = classify_failure_class(ops, o, hi)
-        if got is None:
-            # fails, but not in the way the class describes: a genuine violation
-            rep.add_failure("dl.known/oracle", l, o, "OK", "known-class history fails outside its class: " + o)
-            continue
-        kstats["reproduced"][got] = kstats["reproduced"].get(got, 0) + 1
-        if got in listed:
-            rep.add_failure("dl.known/oracle", l, o, "OK", "known finding class " + got + ": " + o)
-        else:
-            kstats["unlisted_reproduced_examples"].setdefault(got, {"case": l, "oracle": o})
-    # default-stream histories that turned out to be in a known class (blind raw indexes)
-    kstats["moved_from_default"] = len(moved_to_known)
-    rep.streams["dl.known"] = dict(rep.streams.get("dl.known", {}), **kstats)
-    rep.evaluations += len(kol)
